@@ -302,8 +302,15 @@ def arithmetic_cases():
     cnt = {1: ('int', 0, 2), 2: ('int', 0, 2)}
     cases.append(scripth.Case([R.Repeat('count', [R.Print(N(value=1))], n=R.Bin('+', N(sid=1, kind='any'), N(sid=2, kind='any')))], specs=(), tag='pos-count', doms=cnt))
     cases.append(scripth.Case([R.Repeat('with', [R.Print(R.Var('i'))], var='i', a=R.Bin('-', N(sid=1, kind='any'), N(value=1)), b=R.Bin('*', N(sid=2, kind='any'), N(value=2)))], specs=(), tag='pos-from-to', doms=cnt))
+    cases.append(scripth.Case([R.Assign('i', N(sid=1, kind='any')), R.Repeat('with', [R.Print(R.Var('i'))], var='i', a=N(value=1), b=R.Bin('+', R.Var('i'), N(sid=2, kind='any')))],
+                              specs=(), tag='pos-to-mentions-index', doms=cnt))
     cases.append(scripth.Case([R.Assign('w', N(sid=1, kind='any')), R.Repeat('while', [R.Print(R.Var('w')), R.Assign('w', R.Bin('-', R.Var('w'), N(value=1)))],
                                                                      cond=R.Bin('>', R.Bin('*', R.Var('w'), N(value=2)), N(value=1)))], specs=(), tag='pos-while', doms=cnt))
+    cases.append(scripth.Case([R.If(N(sid=1, kind='any'), [R.Print(N(value=1))], [R.Print(N(value=2))])], specs=(), tag='truth-if-number', doms={1: ('real', -3, 3)}))
+    cases.append(scripth.Case([R.Assign('k', N(sid=1, kind='any')), R.Repeat('while', [R.Print(R.Var('k')), R.Assign('k', R.Bin('-', R.Var('k'), N(value=1)))], cond=R.Var('k'))],
+                              specs=(), tag='truth-while-number', doms={1: ('int', 0, 3)}))
+    cases.append(scripth.Case([R.RoutineDef('f', ['p'], [R.Return(R.Bin('-', R.Var('p'), N(value=2)))]), R.If(R.CallE('f', [N(sid=1, kind='any')]), [R.Print(N(value=1))], [R.Print(N(value=2))])],
+                              specs=(), tag='truth-if-call', doms={1: ('int', 0, 4)}))
     # built-ins with documented definitions
     for fn in ('round', 'trunc', 'floor', 'ceil', 'cycle'):
         cases.append(scripth.Case([R.Print(R.CallE(fn, [N(sid=1, kind='any')]))], specs=(), tag='builtin-%s' % fn, doms={1: ('real', -1000, 1000)}))
@@ -438,6 +445,29 @@ def random_worker(args):
             res.stats.inconclusive += 1
             res.stats.q_unknown += 1
             res.inconclusive.append('random completeness: solver unknown')
+    # the same call with the real random module and bounds whose value is integral but whose Python type is float
+    # (the proxies are type-agnostic; randint is not)
+    saved_ctx = symx.Ctx.cur
+    symx.Ctx.cur = None
+    world.uninstall_real_mode()
+    try:
+        for la, lb, lo, hi in (('1', '3', 1, 3), ('1', '{6 / 2}', 1, 3), ('{4 / 2}', '{8 / 2}', 2, 4), ('{0 - 1.0}', '{1.0}', -1, 1), ('{2 * 1.5}', '3', 3, 3)):
+            script = 'print [random %s %s]' % (la, lb)
+            for seed in range(12):
+                bardolph_math.py_random.seed(seed)
+                net = world.configure(())
+                p2 = Parser()
+                assert p2.parse(script), p2.get_errors()
+                m = Machine(); m.reset(); m.run(p2.get_program())
+                outs = [e[1] for e in net.trace if e[0] == 'out']
+                res.nontrivial += 1
+                if net.aborted or len(outs) != 1 or not (lo <= outs[0] <= hi) or outs[0] != int(outs[0]):
+                    res.violation('random|integral float bounds', '%s: %s' % (script, net.aborted or 'printed %r, expected an integer in %d..%d' % (outs, lo, hi)),
+                                  inputs={'script': script, 'seed': seed}, replayed=True)
+                    break
+    finally:
+        world.install_real_mode()
+        symx.Ctx.cur = saved_ctx
     res.sample({'script': text, 'stub': 'random.randrange/randint return any value within their documented contract'})
     res.functions = world.functions_seen()
     return res
